@@ -169,6 +169,23 @@ def case_features(case, objs=None) -> List[str]:
         f.add("empty_domain")
     if any(v.get("kw") for v in case["vars"]):
         f.add("predicate_form_var")
+        # KF-43: a nested sub-query that SELECTS a predicate-form variable (itself a sub-query over its field constraints),
+        # beneath a disjunction or negation: the false results of the nested query bind the variable to objects that fail
+        # its field constraints, and the other operand then takes them for values of it
+        kwv = {i for i, v in enumerate(case["vars"]) if v.get("kw")}
+
+        def sub_under(n, inside):
+            if n[0] in ("or", "not"):
+                inside = True
+            if n[0] in ("and", "or"):
+                return any(sub_under(x, inside) for x in n[2])
+            if n[0] in ("not", "forall"):
+                return sub_under(n[2], inside)
+            if n[0] == "sub":
+                return (inside and bool(set(n[2]) & kwv)) or sub_under(n[3], inside)
+            return False
+        if sub_under(c, False):
+            f.add("subquery_selects_predicate_form_var_under_disjunction")
     # a variable whose (type-filtered) domain is empty and that occurs beneath a disjunction (or a negation, which
     # De Morgan turns into one): the engine never reaches it on the other disjunct
     def _rec_val(r, f):
